@@ -138,3 +138,50 @@ def run_c19(v):
         "otherwise structural: tail untouched (scores, order, behind the window), window membership, unmatched window hits keep their score, window ordered by the sort plan with its new observed scores",
         "small limits: the rescored request under limit k must return the first k hits of the covering response only when window_size <= k+1 and nothing was dropped (README is silent on windows beyond the candidate list)",
     ]
+
+
+# ------------------------------------------------------------------------------------------------
+# C21
+# ------------------------------------------------------------------------------------------------
+MC_HIGHLIGHT = """SPECIFICATION Spec
+CONSTANT MaxChars = {chars}
+CONSTANT MaxSize = {size}
+CONSTANT CheckAsBuilt = {asbuilt}
+CONSTANT PrintMod = {mod}
+INVARIANT IdealOk
+INVARIANT OnlyEmpty
+INVARIANT AsBuiltOk
+INVARIANT PrintCase
+CHECK_DEADLOCK FALSE
+"""
+
+
+def run_c21(v):
+    quick = v.tier == "quick"
+    mc = lib.tlc_mc("MC_Highlight.tla", _cfg("MC_Highlight_run.cfg", MC_HIGHLIGHT.format(chars=4 if quick else 6, size=16 if quick else 20, asbuilt="FALSE", mod=7 if quick else 101)),
+                    timeout=6000, coverage=False)
+    lib.require_mc_ok(mc, "MC_Highlight")
+    r = lib.tlc_mc("MC_Highlight.tla", _cfg("MC_Highlight_asbuilt_run.cfg", MC_HIGHLIGHT.format(chars=3, size=12, asbuilt="TRUE", mod=0)),
+                   timeout=1200, coverage=False, workers=4)
+    lib.expect_mc_violation(r, "MC_Highlight as-built byte window (S21a)", {"AsBuiltOk"})
+    cases = lib.outpath(v.prop, "highlight-cases.ndjson")
+    n_cases = lib.write_cases(mc["msgs"], "CASE", cases)
+    if n_cases == 0:
+        raise lib.ToolError("MC_Highlight printed no CASE lines")
+    s1 = _drive(v, "highlight", "cases", {"C21"}, ["--cases", cases, "--max-cases", 100 if quick else 1500])
+    s2 = _drive(v, "highlight", "random", {"C21"}, ["--scenarios", 8 if quick else 120, "--requests", 25 if quick else 60])
+    v.coverage.update({
+        "states": mc["distinct"], "transitions": mc["states"],
+        "traces_validated_against_impl": s1["scenarios"] + s2["scenarios"],
+        "requests_judged": s1["requests"] + s2["requests"],
+        "cases_generated_by_tlc": n_cases, "cases_replayed": s1["requests"],
+        "mc_bounds": f"every text of <={4 if quick else 6} characters of UTF-8 width 1..4 x every match span x fragment_size 0..{16 if quick else 20}",
+        "as_built_byte_window_refuted_by_model": True,
+        "samples": s2["samples"], "exhaustive": False,
+    })
+    v.assumptions += [
+        "which parts of a text match (regex over the analysed query terms) is input: the matches are read from the engine's own fragment of the whole text (same query, fragment_size larger than the text); C21 judges the fragment windows",
+        "the precondition `fragment_size >= 2 * bytes(matched text)` uses the longest match of the text; fragment length is measured in bytes of the fragment without its tags",
+        "random texts mix ASCII, Latin-1, CJK, kana, emoji and multi-byte punctuation; only single string values are highlighted by the engine (arrays are skipped) and generated",
+        "the legacy snippet (highlight_field) is judged as one fragment with fragment_size 120",
+    ]
